@@ -827,8 +827,9 @@ theorem reader_reports_eos (steps : List RStep) (cap : Nat) (hcap : 0 < cap)
   · have hf : r.rs.allDataRead = false := by simpa using hadr
     have hn := next_empty (cap - 0) h1.src hempty
     have hfill : fillLoop cap (cap + 1) [] r.src = (.finished none, r.src) := by
-      simp [fillLoop, hc, hn, hfin]
-      omega
+      have h0 : ¬ (0 ≥ cap) := by omega
+      simp only [fillLoop, List.length_nil, hn, hfin, if_true]
+      rw [if_neg h0]; rfl
     have : pollRead cap r.rs none r.src = (.ready none, { r.rs with allDataRead := true }, r.src) := by
       simp [pollRead, hc, hf, h1.rsReset, hfill, execRead]
     simp [Reader.step, this, Reader.apply]
